@@ -11,7 +11,16 @@ class Boom(Exception):
     pass
 
 
+class Teardown(BaseException):
+    """Not an Exception subclass (like SystemExit / KeyboardInterrupt / GeneratorExit)."""
+
+
+_BASE_EXC = (SystemExit, KeyboardInterrupt, GeneratorExit, Teardown)
+
+
 def _raise(mode):
+    if mode >= 10:
+        raise _BASE_EXC[(mode - 10) % len(_BASE_EXC)]("boom")
     if mode >= len(_EXC):
         raise Boom("boom")
     raise _EXC[mode]("boom")
@@ -71,7 +80,12 @@ class Touchy:
         return item == self.v
 
     def __len__(self):
-        if self.v == -5:
+        if self.v in (-5, 55):
+            _raise(self.mode)
+        return abs(self.v)
+
+    def __abs__(self):
+        if self.v == 66:
             _raise(self.mode)
         return abs(self.v)
 
@@ -196,6 +210,45 @@ def guarded_not(a):
     except Exception:
         r = "err"
     return _after(r, 9)
+
+
+def guarded_any_lt(a, b):
+    """Catches everything, including SystemExit-like signals raised by an operator."""
+    try:
+        if a < b:
+            r = "lt"
+        else:
+            r = "ge"
+    except BaseException:
+        r = "ERR"
+    return _after(r, 11)
+
+
+def guarded_any_bool(a):
+    try:
+        if a:
+            r = "truthy"
+        else:
+            r = "falsy"
+    except BaseException:
+        r = "ERR"
+    return _after(r, 12)
+
+
+def guarded_any_eq(a, b):
+    try:
+        r = "eq" if a == b else "ne"
+    except BaseException:
+        r = "ERR"
+    return _after(r, 13)
+
+
+def guarded_any_in(a, b):
+    try:
+        r = "in" if a in b else "out"
+    except BaseException:
+        r = "ERR"
+    return _after(r, 14)
 
 
 def guarded_chain(a, b, c):
